@@ -62,6 +62,8 @@ SCENARIOS = {
     # stream counters: picks on the current and on a stale picker with completions
     "streams": (C(2, 2, 100), [R(), S(1, "READY"), S(2, "READY"), P(), P(), P()],
                 [P(), P(pk=1), D(1), D(2, "ERR")], [P(), P(), D(3), D(4), D(5), D(6), D(7)]),
+    # several picks through the same picker: selection and increment of the stream count are one step
+    "streams-same": (C(2, 2, 100), [R(), S(1, "READY"), S(2, "READY")], [P(), P(), P()], [P(), D(1), D(2), D(3), D(4)]),
     # stream counters across the take-over of a refreshed channel
     "streams-swap": (C(1, 1, 100, uc=1, ums=1), [R(), S(1, "READY"), P(), P(), P(dl=1), A(5), D(3, "CDE")],
                      [P(), D(1), S(2, "READY")], [P(), D(2), D(4), D(5)]),
@@ -102,7 +104,7 @@ SCENARIOS = {
 
 PROP_SCENARIOS = {
     "C01": ["bind-swap", "unbind-swap", "bind-bind", "bind-unbind", "bound-swap"],
-    "C02": ["streams", "streams-swap", "growth-done"],
+    "C02": ["streams", "streams-same", "streams-swap", "growth-done"],
     "C03": ["growth2", "growth3", "growth-done", "refresh2", "resolve-growth"],
     "C04": ["growth2", "refresh-swap", "fallback"],
     "C05": ["bind-swap", "streams-swap", "resolve-refresh", "rr-state"],
